@@ -105,8 +105,34 @@ func TestVerifRing(t *testing.T) {
 		nsteps := 40 + r.intn(vscale(400, 900))
 		// bias towards a nearly full ring and a late Free
 		lateFree := r.chance(60)
+		// a reader that stalls between its load of head and its load of tail while the others fill the stripe, get it
+		// drained (the batch stays out) and fill it again: it resumes with a head that is a whole round old
+		var stale *vthread
+		if nth >= 3 && r.chance(30) {
+			stale = v.threads[nth-1]
+			item++
+			it := item
+			st := stale
+			v.start(st, func() { st.result = v.b.Add(ReadBufItem[int, int]{hash: uint64(it)}) })
+			tr.op("start", ss("0", i64(int64(stale.id)), i64(int64(it))), nil)
+			claimed[it] = true
+			v.step(stale) // loads head, stops before the load of tail
+			tr.op("step", ss("1", i64(int64(stale.id))), nil)
+			lateFree = true
+			nsteps += 350
+		}
 		for i := 0; i < nsteps; i++ {
 			th := v.threads[r.intn(nth)]
+			if th == stale {
+				refilled := v.b.head.Load() >= capacity && v.b.tail.Load()-v.b.head.Load() >= capacity
+				if !refilled && i < nsteps-20 {
+					continue
+				}
+				stale = nil // released: from here on it is scheduled like the others
+			}
+			if stale != nil && th.hold {
+				continue // the batch stays out while the stale reader is parked
+			}
 			switch {
 			case !th.busy && !th.hold:
 				item++
